@@ -87,7 +87,7 @@ pub fn fork(data: &[u8]) -> c12::Case {
     let cap = 1 + idx(&mut u, 16);
     let array_storage = idx(&mut u, 2) == 0;
     let int_frames = idx(&mut u, 2) == 0;
-    let variant = [c12::Variant::ByRef, c12::Variant::ByRc, c12::Variant::ResplitRefRef, c12::Variant::ResplitRefRc][idx(&mut u, 4)];
+    let variant = [c12::Variant::ByRef, c12::Variant::ByRc, c12::Variant::ResplitRefRef, c12::Variant::ResplitRefRc, c12::Variant::RcDropA, c12::Variant::RcDropB][idx(&mut u, 6)];
     let split_at = idx(&mut u, 200);
     let mut choices = Vec::new();
     while !u.is_empty() && choices.len() < 1000 {
